@@ -15,6 +15,7 @@
 -/
 import CTM.Lemmas.Tree
 import CTM.Lemmas.TreeLca
+import CTM.Lemmas.TreeLinks
 import CTM.Generated.TreeConsts
 
 namespace CTM.C10
@@ -737,6 +738,33 @@ example : (fromRecordsRaw [0, 1, 2] [[10, 20, 30], [10, 21, 31], [11, 22, 32], [
     fromRecordsRaw [0, 2] [[10, 30], [10, 31], [11, 32], [10, 33]]
       = ⟨true, [0, 2], [(0, [(10, [30, 31, 33]), (11, [32])]),
               (2, [(30, [0]), (31, [1]), (32, [2]), (33, [3])])], true⟩ := by decide
+
+/-! ### the data-release CSV route -/
+
+/-- *"under construction"*, for the route behind `TaxonomyTree.from_data_release`
+(`get_tree_above_leaves` on `cluster_annotation_term.csv`, no cell metadata):
+whatever the route accepts is validated, has the requested hierarchy, and is
+exactly the taxonomy the rows describe — every row whose level has a level above
+it in the hierarchy names THAT level as its parent level and its link is in the
+tree (never a silently smaller tree), and every link of the tree comes from a
+row. -/
+theorem from_links_exact (h : List Level) (rows : List LinkRow) (t : RawTree)
+    (ht : fromLinks h rows = .ok t) :
+    t.validate = .ok () ∧ t.hierarchy = h ∧
+    (∀ r, r ∈ rows → ∀ pl, (pl, r.level) ∈ levelPairs h →
+      r.parentLevel = pl ∧ IsChild t pl r.parent r.label) ∧
+    (∀ pl cl, (pl, cl) ∈ levelPairs h → ∀ p c, IsChild t pl p c →
+      ∃ r, r ∈ rows ∧ r.label = c ∧ r.level = cl ∧ r.parent = p ∧ r.parentLevel = pl) :=
+  ⟨(fromLinks_ok ht).1, (fromLinks_ok ht).2.1, fromLinks_rows_present ht,
+    fun pl cl hm p c hc => fromLinks_links_from_rows ht pl cl hm p c hc⟩
+
+example :
+    fromLinks [0, 1, 2] [⟨20, 1, 10, 0⟩, ⟨31, 2, 20, 1⟩, ⟨30, 2, 20, 1⟩, ⟨10, 0, 0, 0⟩] =
+      .ok ⟨true, [0, 1, 2], [(0, [(10, [20])]), (1, [(20, [30, 31])]),
+                              (2, [(30, []), (31, [])])], true⟩ ∧
+    -- a cluster linked to the level two above: rejected, not dropped
+    fromLinks [0, 1, 2] [⟨20, 1, 10, 0⟩, ⟨31, 2, 10, 0⟩, ⟨30, 2, 20, 1⟩] =
+      .error .badParentLevel := by decide
 
 /-! ### constants re-extracted from the current source (translator) -/
 
